@@ -141,10 +141,20 @@ func vfBuild() *vfWorld {
 		h := vfH("ctx.hash")
 		vfAssume(h != (util.Uint160{})) // a zero hash would make the VM derive the hash from the script bytes
 		last := i == w.depth-1
-		if last && vfBool("explicit-caller") {
+		how := 0
+		if last {
+			how = vfChoose("load", 0, 2)
+		}
+		if how == 1 {
 			caller := vfH("caller.hash") // any hash, including zero (no caller) and the account itself
 			w.v.LoadNEFMethod(&nef.File{Script: ret}, nil, caller, h, w.flags, false, 0, -1, nil, nil, false)
 			w.calling = caller
+		} else if how == 2 && i > 0 {
+			// a dynamic script (System.Runtime.LoadScript): its caller is the loading contract and
+			// its own hash is derived from the script bytes
+			w.calling = w.v.GetCurrentScriptHash()
+			w.v.LoadDynamicScript(ret, w.flags)
+			h = w.v.GetCurrentScriptHash()
 		} else {
 			w.calling = w.v.GetCurrentScriptHash()
 			w.v.LoadScriptWithHash(ret, h, w.flags)
@@ -162,7 +172,7 @@ func (w *vfWorld) calledByEntry() bool { return w.depth <= 2 }
 //vf:tier quick
 //vf:bigint theory
 //vf:unwind 32
-//vf:bound invocation stack depth 1..3 with fully symbolic 20-byte script hashes (any coincidences), top context optionally with an explicit caller hash; one signer (account equal to the checked one or not); every valid scope combination; <=2 allowed contracts, <=1 allowed group, <=2 rules with arbitrary condition outcome; contracts with 0..2 groups (arbitrary keys) or missing
+//vf:bound invocation stack depth 1..3 with fully symbolic 20-byte script hashes (any coincidences), top context loaded as a contract, with an explicit caller hash (native/LoadNEFMethod), or as a dynamic script; one signer (account equal to the checked one or not); every valid scope combination; <=2 allowed contracts, <=1 allowed group, <=2 rules with arbitrary condition outcome; contracts with 0..2 groups (arbitrary keys) or missing
 //vf:assume loaded contexts carry non-zero script hashes
 //vf:stub public keys are arbitrary coordinate pairs; rule conditions are arbitrary (bool, error) outcomes
 func VF_C15_check_scope_one_signer() { vfCheckScope(1, 1) }
